@@ -75,7 +75,10 @@ class EditGen:
                  and not any(p == d or p.startswith(d + '/')
                              for p in self.protected)]
         kinds = ['add_file'] * 6 + ['script_comment'] * 2 + \
-            ['script_semantic'] * 2 + ['mkdir'] * 2 + ['modify'] + ['tick']
+            ['script_semantic'] * 2 + ['mkdir'] * 2 + ['modify'] + \
+            ['tick'] + ['hold'] + ['add_submodule']
+        if getattr(self, 'added_subs', None):
+            kinds += ['remove_submodule'] * 2
         if rfiles:
             kinds += ['remove_file'] * 4 + ['rename_file'] * 2 + \
                 ['move_file'] * 2 + ['file_to_dir']
@@ -86,6 +89,27 @@ class EditGen:
         if absent:
             kinds += ['absent_base'] * 3
         k = rng.choice(kinds)
+        if k == 'hold':
+            # the next few edits happen within one tick of the clock
+            return [['hold', rng.randint(2, 4)]], 'hold'
+        if k == 'add_submodule':
+            self.n += 1
+            name = 'addsub{}'.format(self.n)
+            self.added_subs = getattr(self, 'added_subs', []) + [name]
+            return [
+                ['write', name + '/build.bfg',
+                 "# added submodule\nfound = find_files('**/*.c')\n"
+                 "lib = static_library('{}', files=found)\n".format(name)],
+                ['write', name + '/one.c', G.c_source(name)],
+                ['append', 'build.bfg',
+                 "{0} = submodule('{0}')\n".format(name)],
+            ], 'add_submodule'
+        if k == 'remove_submodule':
+            name = self.added_subs.pop(rng.randrange(len(self.added_subs)))
+            text = self.world.read('build.bfg')
+            line = "{0} = submodule('{0}')\n".format(name)
+            return [['write', 'build.bfg', text.replace(line, '')],
+                    ['remove', name]], 'remove_submodule'
         if k == 'absent_base':
             # create (or remove again) the missing base of a search
             if os.path.isdir(self.world.s(absent)):
@@ -298,6 +322,11 @@ class C08History:
     def step(self, op, idx):
         sim = self.sim
         k = op[0]
+        if k in ('regen', 'build', 'bfg'):
+            # edits that share a tick must all happen before the next run:
+            # an edit stamped with a tick from before a run would be older
+            # than the run's outputs and invisible to every mtime-based tool
+            sim.world._held = None
         if k == 'regen':
             r = sim.regen_step()
             self.regen_oracle(r, idx, 'backend')
